@@ -18,7 +18,7 @@ LEVEL_TEXT = ("Termination is restated as bounded progress: every call of this r
 LEVEL_NOTE = ("A finite budget decides 'never returns' for the loops that perform graph look-ups; the candidate product is bounded "
               "by heap_size <= 1e4 here (an unbounded product performs no look-ups and is outside the property). A wall-clock "
               "watchdog only ever yields inconclusive.")
-PLAN = {"quick": dict(shards=16, budget=100), "thorough": dict(shards=32, budget=400)}
+PLAN = {"quick": dict(shards=16, budget=100), "thorough": dict(shards=16, budget=400)}
 RULE = ("repair_dna(s, CountingAccessor(G), v, k, check, has_indel, heap_size <= 1e4) for ACGT strings with |s| >= k: walks with "
         "0-8 edits anywhere, first nucleotide not an arc of v for every live v, v a dead vertex, an error at each of the last k "
         "positions, a closed walk with one error repeated 40-70 times (40-70 error sites), random strings, alternating error/clean blocks of period k+1, |s| == k; arc-subset (also unpruned) and "
